@@ -228,7 +228,8 @@ func callsIn(f *ssa.Function, withClosures bool) []callSite {
 // helpersOf lists the transparent non-literal callees of f, transitively (bounded): unexported
 // functions and methods of f's package that f (or such a helper) calls statically. Rules treat
 // their bodies as part of f, so that extracting statements into a helper changes no verdict.
-// Function literals are not included here (callers ask for them with withClosures / AnonFuncs).
+// Function literals are included only when they are called in place (`func() { … }()`); others are
+// reached with withClosures / AnonFuncs by the rules that want them.
 var helperMemo = map[*ssa.Function][]*ssa.Function{}
 
 // regionMode: when true, fieldRefs / callsIn / branchesIn of a function include its helpers.
@@ -276,7 +277,8 @@ func helpersOf(f *ssa.Function) []*ssa.Function {
 						continue
 					}
 					sc := ci.Common().StaticCallee()
-					if sc == nil || seen[sc] || sc.Parent() != nil || len(sc.Blocks) == 0 || !isTransparent(sc, pkg) {
+					// (a function literal called in place is a static callee too and belongs to the region)
+					if sc == nil || seen[sc] || len(sc.Blocks) == 0 || !isTransparent(sc, pkg) {
 						continue
 					}
 					seen[sc] = true
